@@ -915,12 +915,49 @@ func registerJSONModel(e *Engine) {
 		}
 		return x.jsonUnmarshal(data, a[1], jsonDecodeOpts{useNumber: d.useNumber}), true
 	}
+	// Encoder: Encode = Marshal + newline, written through the writer's own Write method
+	e.intrinsics["encoding/json.NewEncoder"] = func(x *Exec, fn *ssa.Function, a []Value) (Value, bool) {
+		return mkPtr(&Cell{V: &NativeVal{V: &jsonEncoderState{writer: a[0]}}}), true
+	}
+	e.intrinsics["(*encoding/json.Encoder).SetEscapeHTML"] = func(x *Exec, fn *ssa.Function, a []Value) (Value, bool) { return nil, true }
+	e.intrinsics["(*encoding/json.Encoder).SetIndent"] = func(x *Exec, fn *ssa.Function, a []Value) (Value, bool) { return nil, true }
+	e.intrinsics["(*encoding/json.Encoder).Encode"] = func(x *Exec, fn *ssa.Function, a []Value) (Value, bool) {
+		nv, ok := x.deref(a[0].(*PtrVal)).Load().(*NativeVal)
+		if !ok {
+			panic(unsupported("json.Encoder is not a modelled handle"))
+		}
+		st := nv.V.(*jsonEncoderState)
+		iv := a[1].(*IfaceVal)
+		var b []*Term
+		if iv.T == nil {
+			b = bytesOfStr("null")
+		} else {
+			var err Value
+			b, err = x.jsonMarshal(iv.V, iv.T)
+			if err != nil {
+				return err, true
+			}
+		}
+		b = append(b, mkBV(8, '\n'))
+		w := st.writer.(*IfaceVal)
+		if w.T == nil {
+			x.goPanicf("invalid memory address or nil pointer dereference (json.Encoder on a nil writer)")
+		}
+		wf := x.eng.methodByName(w.T, "Write")
+		if wf == nil {
+			panic(unsupported("json model: writer without Write method"))
+		}
+		res := x.callFunction(wf, []Value{w.V, sliceOfBytes(b)}, nil).(TupleVal)
+		return res[1], true
+	}
 	e.allowFns["(*encoding/json.RawMessage).UnmarshalJSON"] = true
 	e.allowFns["(encoding/json.RawMessage).MarshalJSON"] = true
 	for _, n := range []string{"WriteJSON", "ReadJSON", "ConcatJSON"} {
 		e.allowFns["github.com/go-openapi/swag."+n] = true
 	}
 }
+
+type jsonEncoderState struct{ writer Value }
 
 type jsonDecoderState struct {
 	reader    Value
